@@ -616,9 +616,12 @@ class Array(metaclass=MetaArray):
     def _update(self, value):
         if is_integer(value):
             ll = value
+            fits = len(self) == ll
         else:
             ll = len(value)
-        if len(self) == ll:
+            shape = get_shape_from_array(value, len(self._shape))
+            fits = tuple(shape) == tuple(self._shape)
+        if fits:
             self.__class__._to_buffer(self._buffer, self._offset, value)
         else:
             if is_integer(value):
